@@ -165,6 +165,18 @@ func genUciDet(o *Out, r *rand.Rand, thorough bool) {
 		o.Count("ucidet:drawn-root")
 		o.Nontrivial(line)
 	}
+	// five-fold repetition and a clock far beyond 100: the draw is automatic by the rules, but the game can still be continued
+	// on the board and a go must still be answered with a legal move; the line may also go on
+	five := shuffle + " " + shuffle
+	for _, l := range []string{
+		fmt.Sprintf("uci plain 0 ; > position startpos moves %s ;; sync ;; state ;; > go depth 2 ;; wait-bestmove ;; state", five),
+		fmt.Sprintf("uci plain 0 ; > position startpos moves %s e2e4 ;; sync ;; state ;; > go depth 1 ;; wait-bestmove ;; state", five),
+		"uci plain 0 ; > position fen 4k3/8/8/8/8/8/8/R3K3 w - - 120 90 moves a1a2 e8e7 ;; sync ;; state ;; > go depth 2 ;; wait-bestmove ;; state",
+	} {
+		o.do(l)
+		o.Count("ucidet:automatic-draw-root")
+		o.Nontrivial(l)
+	}
 }
 
 // ---- interleavings (checked by a monitor over the event trace) ------------------------------------
